@@ -40,6 +40,11 @@ pub struct BkCase {
     /// (its deposits then count for nothing towards new borrowing, but they are still assets of the account)
     #[serde(default)]
     pub collateral_state: u8,
+    /// 0 = one debt; k > 0 = before the main borrow the victim also borrows k / 256 of its borrowing power from the third
+    /// bank, so that after the first settlement a SECOND debt is left: the account is disabled already, but a second
+    /// write-off still needs it to be bankrupt (probed with the collateral price as crashed and after a recovery)
+    #[serde(default)]
+    pub second_debt: u8,
 }
 
 pub fn case_strategy() -> impl Strategy<Value = BkCase> {
@@ -54,9 +59,9 @@ pub fn case_strategy() -> impl Strategy<Value = BkCase> {
         prop::bool::weighted(0.3),
         prop::bool::weighted(0.08),
         prop_oneof![2 => Just(0u32), 2 => 1u32..100_000, 3 => 100_000u32..100_000_000],
-        (prop_oneof![3 => Just(1000u16), 1 => 500u16..2000], prop_oneof![6 => Just(0u8), 2 => Just(1u8), 1 => Just(2u8)]),
+        (prop_oneof![3 => Just(1000u16), 1 => 500u16..2000], prop_oneof![6 => Just(0u8), 2 => Just(1u8), 1 => Just(2u8)], prop_oneof![3 => Just(0u8), 1 => 1u8..=8, 1 => 8u8..=120]),
     )
-        .prop_map(|(mut banks, lenders, collateral, borrow_frac, (insurance_frac, insurance_delta), crash_pm, signer, permissionless, wrong_bank, wait, (ema_skew_pm, collateral_state))| {
+        .prop_map(|(mut banks, lenders, collateral, borrow_frac, (insurance_frac, insurance_delta), crash_pm, signer, permissionless, wrong_bank, wait, (ema_skew_pm, collateral_state, second_debt))| {
             // a re-stated collateral bank is mostly paired with a mild crash or none: the account then stays solvent and
             // the settlement must be refused whatever the bank's state
             let crash_pm = if collateral_state != 0 && crash_pm < 50 && crash_pm % 2 == 0 { 1000 - crash_pm * 10 } else { crash_pm };
@@ -76,6 +81,13 @@ pub fn case_strategy() -> impl Strategy<Value = BkCase> {
                         b.aw_m = b.aw_i;
                     }
                 }
+                if i == 2 && second_debt > 0 {
+                    // the second debt bank must be borrowable next to the first
+                    b.isolated = false;
+                }
+                if i == 1 && second_debt > 0 {
+                    b.isolated = false;
+                }
                 if i == 1 {
                     // a curve with real interest and fees so that debt can outgrow deposits
                     b.curve.zero = 50_000_000;
@@ -86,7 +98,7 @@ pub fn case_strategy() -> impl Strategy<Value = BkCase> {
                     b.permissionless_bad_debt = permissionless;
                 }
             }
-            BkCase { spec: WorldSpec { banks, n_users: 7, program_fees_enabled: false, ..WorldSpec::default() }, lenders, collateral, borrow_frac, insurance_frac, insurance_delta, crash_pm, signer, permissionless, wrong_bank, wait, ema_skew_pm, collateral_state }
+            BkCase { spec: WorldSpec { banks, n_users: 7, program_fees_enabled: false, ..WorldSpec::default() }, lenders, collateral, borrow_frac, insurance_frac, insurance_delta, crash_pm, signer, permissionless, wrong_bank, wait, ema_skew_pm, collateral_state, second_debt }
         })
 }
 
@@ -103,6 +115,30 @@ pub struct Stats {
     pub collateral_restated: bool,
     pub hostile_tried: u64,
     pub hostile_accepted: u64,
+    /// second settlement (the other debt of the already disabled account): attempts / successes, with the collateral
+    /// price as crashed and after a recovery
+    pub second_crashed: Option<bool>,
+    pub second_recovered: Option<bool>,
+}
+
+/// true iff under EVERY admissible reading (spot / EMA price x the two given states) the account's assets are worth at
+/// least its liabilities or at least ten cents, i.e. it is definitely NOT bankrupt
+fn definitely_not_bankrupt(vms: [&Vm; 2], acct: &Pubkey) -> bool {
+    for vm in vms {
+        for kind in [PriceKind::Ema, PriceKind::Spot] {
+            match equity(vm, acct, kind) {
+                None => return false, // undefined reading cannot prove non-bankruptcy
+                Some((a, l, ign)) => {
+                    let solvent = &a.lo - &ign >= l.hi;
+                    let rich = &a.lo - &ign >= q_ratio(1, 10);
+                    if !(solvent || rich) {
+                        return false;
+                    }
+                }
+            }
+        }
+    }
+    true
 }
 
 fn set_token_amount(vm: &mut Vm, k: &Pubkey, amount: u64) {
@@ -153,6 +189,24 @@ pub fn run_case(c: &BkCase, stats: &mut Stats) -> Result<(), (String, String)> {
     let ix = w.ix_deposit(victim.accts[0], victim.auth, cb, victim.tokens[cb], c.collateral, None);
     if w.vm.exec(&ix).is_err() {
         return Ok(());
+    }
+    let borrowing_power = |w: &World, bi: usize| -> u64 {
+        let a = read_macct(&w.vm, &victim.accts[0]).unwrap();
+        let h = health(&w.vm, &a, Req::Initial, w.vm.now());
+        let bank = w.bank(bi);
+        let ov = oracle_view(&w.vm, &bank, w.vm.now());
+        match (h.health(), ov.high(PriceKind::Ema)) {
+            (Some(hh), Some(p)) if hh.lo.is_positive() && p.hi.is_positive() => q_floor(&(&hh.lo / (&p.hi * q_w(bank.config.liability_weight_init)) * pow10(bank.mint_decimals as u32))).to_u64().unwrap_or(0),
+            _ => 0,
+        }
+    };
+    if c.second_debt > 0 {
+        let p2 = borrowing_power(&w, xb).min(w.tok(&w.banks[xb].lv));
+        let a2 = ((p2 as u128 * c.second_debt as u128) >> 8) as u64;
+        if a2 > 0 {
+            let ix = w.ix_borrow(victim.accts[0], victim.auth, xb, victim.tokens[xb], a2);
+            let _ = w.vm.exec(&ix);
+        }
     }
     let liq = w.tok(&w.banks[db].lv);
     let power = {
@@ -292,22 +346,7 @@ pub fn run_case(c: &BkCase, stats: &mut Stats) -> Result<(), (String, String)> {
         return Err(("bankruptcy:unauthorized-signer".into(), "bad debt settled by a stranger on a bank that did not opt into permissionless settlement".into()));
     }
     // --- the account really was bankrupt (alarm only if it is not under every admissible reading)
-    let mut bankrupt_somehow = false;
-    for vm in [&pre, &pre_acc] {
-        for kind in [PriceKind::Ema, PriceKind::Spot] {
-            match equity(vm, &victim.accts[0], kind) {
-                None => bankrupt_somehow = true, // undefined reading cannot prove non-bankruptcy
-                Some((a, l, ign)) => {
-                    let solvent = &a.lo - &ign >= l.hi;
-                    let rich = &a.lo - &ign >= q_ratio(1, 10);
-                    if !(solvent || rich) {
-                        bankrupt_somehow = true;
-                    }
-                }
-            }
-        }
-    }
-    if !bankrupt_somehow {
+    if definitely_not_bankrupt([&pre, &pre_acc], &victim.accts[0]) {
         return Err(("bankruptcy:account-not-bankrupt".into(), "bad debt written off although under every reading (spot/EMA x stored/accrued) assets are worth at least the liabilities or at least $0.10".into()));
     }
     // --- the account owed in this bank
@@ -433,10 +472,53 @@ pub fn run_case(c: &BkCase, stats: &mut Stats) -> Result<(), (String, String)> {
             return Err(("bankruptcy:killed-bank-accepts-deposit".into(), "deposit into a killed bank succeeded".into()));
         }
     }
+    // --- a second debt of the (now disabled) account: a further write-off needs the account to be bankrupt STILL. Tried
+    // by the group admin with the collateral price as crashed, and after the price recovered to its original level.
+    let other = if target_bank == db { xb } else { db };
+    let okey = w.banks[other].key;
+    let owes_other = {
+        let a = read_macct(&post, &victim.accts[0]).unwrap();
+        a.lending_account.balances.iter().find(|x| x.active != 0 && x.bank_pk == okey).map(|x| bits(x.liability_shares)).unwrap_or(0) > 0
+    };
+    if owes_other {
+        for recovered in [false, true] {
+            let mut w2 = w.clone();
+            w2.vm = post.clone();
+            if recovered {
+                // (World::set_price overwrites the bank's spec: the original level is the case's)
+                let m0 = c.spec.banks[cb].oracle.mant;
+                let _ = w2.set_price(cb, m0, 0, m0, 0);
+            }
+            let before = w2.vm.clone();
+            let mut before_acc = w2.vm.clone();
+            let _ = before_acc.exec(&w2.ix_accrue(other));
+            let ix2 = w2.ix_bankruptcy(other, victim.accts[0], w2.roles.admin);
+            let ok2 = w2.vm.exec(&ix2).is_ok();
+            if recovered {
+                stats.second_recovered = Some(ok2);
+            } else {
+                stats.second_crashed = Some(ok2);
+            }
+            if ok2 && recovered && std::env::var("MFV_DEBUG_C07").is_ok() {
+                for kind in [PriceKind::Ema, PriceKind::Spot] {
+                    eprintln!("DEBUG second/recovered {:?}: {:?}", kind as u8, equity(&before, &victim.accts[0], kind).map(|(a, l, i)| (q_str(&a.lo), q_str(&l.hi), q_str(&i))));
+                }
+            }
+            if ok2 && definitely_not_bankrupt([&before, &before_acc], &victim.accts[0]) {
+                return Err((
+                    "bankruptcy:account-not-bankrupt".into(),
+                    format!(
+                        "SECOND settlement (bank #{other}, after bank #{target_bank} was settled and the account disabled{}): bad debt written off although under every reading assets are worth at least the liabilities or at least $0.10",
+                        if recovered { ", collateral price recovered" } else { "" }
+                    ),
+                ));
+            }
+        }
+    }
     Ok(())
 }
 
-const RULE: &str = "proptest: 3-bank worlds (generated decimals, SPL / Token-2022 / transfer-fee mints, oracles with EMA skew), 1-5 depositors with generated shares in the debt bank, a victim that borrows a generated fraction (up to all) of the liquidity against collateral whose price is then crashed (to the minimum or only partly = control), interest with fees accruing for a generated time, the collateral bank left operational / set reduce-only / paused by the admin after the borrow (its deposits are still the account's assets), insurance vault funded at {0, fraction of, exactly +-2 of, more than} the accrued debt, signer in {admin, risk admin, stranger} x permissionless flag, right / wrong bank. On success: signer entitled; account bankrupt under at least one admissible reading (spot/EMA x stored/accrued); debt in this bank > 0.0001; insurance used first and not overdrawn; deposit shares untouched for every depositor and total claims fall by exactly debt - cover; share value >= 0; wipe-out => bank killed, and a killed bank survives every configure_bank(operational_state) and refuses deposits; account disabled, debt cleared, total debt falls by the bad debt. Non-trivial = successful settlement with >= 2 depositors; regimes (insured / socialised / wipe-out) and rejection codes are counted.";
+const RULE: &str = "proptest: 3-bank worlds (generated decimals, SPL / Token-2022 / transfer-fee mints, oracles with EMA skew), 1-5 depositors with generated shares in the debt bank, a victim that borrows a generated fraction (up to all) of the liquidity against collateral whose price is then crashed (to the minimum or only partly = control), interest with fees accruing for a generated time, the collateral bank left operational / set reduce-only / paused by the admin after the borrow (its deposits are still the account's assets), insurance vault funded at {0, fraction of, exactly +-2 of, more than} the accrued debt, signer in {admin, risk admin, stranger} x permissionless flag, right / wrong bank. On success: signer entitled; account bankrupt under at least one admissible reading (spot/EMA x stored/accrued); debt in this bank > 0.0001; insurance used first and not overdrawn; deposit shares untouched for every depositor and total claims fall by exactly debt - cover; share value >= 0; a second debt (a quarter..two fifths of the cases: the victim also owes the third bank) is tried after the first settlement with the price as crashed and after a recovery - a success needs the account to be bankrupt still; wipe-out => bank killed, and a killed bank survives every configure_bank(operational_state) and refuses deposits; account disabled, debt cleared, total debt falls by the bad debt. Non-trivial = successful settlement with >= 2 depositors; regimes (insured / socialised / wipe-out) and rejection codes are counted.";
 
 pub fn run(ctx: &Ctx) -> Report {
     let cases: u32 = ctx.tier.pick(5000, 250_000);
@@ -465,6 +547,12 @@ pub fn run(ctx: &Ctx) -> Report {
                 }
                 if let Some(e) = st.err {
                     rep.label(&format!("rejected:{e}"));
+                }
+                if let Some(ok) = st.second_crashed {
+                    rep.label(&format!("second-settlement:still-crashed:{}", if ok { "settled" } else { "refused" }));
+                }
+                if let Some(ok) = st.second_recovered {
+                    rep.label(&format!("second-settlement:price-recovered:{}", if ok { "settled" } else { "refused" }));
                 }
                 if st.collateral_restated {
                     rep.label(&format!("collateral-bank-{}:{}", if c.collateral_state == 1 { "reduce-only" } else { "paused" }, if st.success { "settled" } else { "refused" }));
